@@ -4,6 +4,7 @@ import (
 	"errors"
 	"fmt"
 	"os"
+	"path/filepath"
 	"reflect"
 	"sort"
 	"strings"
@@ -15,6 +16,7 @@ import (
 	"github.com/goreleaser/nfpm/v2/files"
 	"gopkg.in/yaml.v3"
 
+	"verifharness/internal/dec"
 	"verifharness/internal/ev"
 	"verifharness/internal/rng"
 )
@@ -754,6 +756,89 @@ func c16(run *ev.Run, tier string) {
 				}
 			}
 		}
+	}
+	// part 5: what was substituted at parse time is final. An entry with expand: true whose
+	// substituted source or destination still contains a '$' (the value of the variable
+	// has one) is packaged under exactly that text, whatever the process environment holds
+	{
+		edir := newWorkDir("c16-dollar")
+		lit := filepath.Join(edir, "price$VERIF_C16_USD.txt")
+		_ = os.WriteFile(lit, []byte("literal dollar\n"), 0o644)
+		_ = os.Setenv("VERIF_C16_USD", "fromprocess")
+		mapping := map[string]string{"VERIF_C16_SRC": lit, "VERIF_C16_DST": "cost$VERIF_C16_USD"}
+		y := "name: dollar\narch: amd64\nversion: 1.0.0\nmaintainer: \"D <d@example.com>\"\ndescription: d\nmtime: 2017-07-14T02:40:00Z\nrpm:\n  buildhost: verif-host\ncontents:\n  - src: ${VERIF_C16_SRC}\n    dst: /opt/${VERIF_C16_DST}\n    expand: true\n"
+		for _, f := range []string{"deb", "rpm", "apk", "ipk", "archlinux"} {
+			run.Case("substituted-value-with-dollar-is-final|"+f, true)
+			cfg, err := parseYAML(y, func(k string) string { return mapping[k] })
+			if err != nil {
+				run.Violate("C16/expand-true/parse-error", map[string]any{"error": err.Error()})
+				break
+			}
+			info, err := infoFor(&cfg, f)
+			if err != nil {
+				run.Violate("C16/expand-true/settings-error", map[string]any{"format": f, "error": err.Error()})
+				continue
+			}
+			res := packageInfo(f, info)
+			if res.Err != nil || res.Panic != "" {
+				run.Violate("C16/expand-true/substituted-value-expanded-again/"+f, map[string]any{"error": fmt.Sprint(res.Err, ev.Short(res.Panic, 200)), "source_after_parse": lit, "process_environment": "VERIF_C16_USD=fromprocess"})
+				continue
+			}
+			p := dec.Decode(f, res.Bytes, false)
+			if e := p.Find("/opt/cost$VERIF_C16_USD"); len(p.Errs) > 0 || e == nil || string(e.Data) != "literal dollar\n" {
+				var paths []string
+				for _, e := range p.Entries {
+					paths = append(paths, e.Path)
+				}
+				run.Violate("C16/expand-true/substituted-value-expanded-again/"+f, map[string]any{"want_entry": "/opt/cost$VERIF_C16_USD", "entries": paths})
+			}
+		}
+		_ = os.Unsetenv("VERIF_C16_USD")
+		removeWorkDir(edir)
+	}
+	// part 6: the command line tool. Values of environment variables arrive whole (an '='
+	// is an ordinary character of a value), and a document read from the standard input
+	// is held to the same strictness as one read from a file
+	if bin := nfpmBin(run); bin != "" {
+		cdir := newWorkDir("c16-cli")
+		src := filepath.Join(cdir, "p.txt")
+		_ = os.WriteFile(src, []byte("p\n"), 0o644)
+		y := "name: envvalues\narch: amd64\nversion: 1.0.0\nmaintainer: ${VERIF_C16_MAINT}\ndescription: ${VERIF_C16_DESC}\nhomepage: ${VERIF_C16_HOME}\nmtime: 2017-07-14T02:40:00Z\ndepends:\n  - ${VERIF_C16_DEP}\ncontents:\n  - src: " + src + "\n    dst: /opt/envvalues/p.txt\n"
+		cfgp := filepath.Join(cdir, "nfpm.yaml")
+		_ = os.WriteFile(cfgp, []byte(y), 0o644)
+		env := []string{"PATH=" + os.Getenv("PATH"), "HOME=" + cdir, "VERIF_C16_MAINT=M <m=m@example.com>", "VERIF_C16_DESC=a=b=c", "VERIF_C16_HOME=https://example.com/?q=1&r=2", "VERIF_C16_DEP=libfoo (>= 1.2)"}
+		target := filepath.Join(cdir, "out.deb")
+		run.Case("cli-variable-values-containing-equals-signs", true)
+		so, se, code, err := runCmd(nil, cdir, env, bin, "package", "-f", cfgp, "-p", "deb", "-t", target)
+		if err != nil || code != 0 {
+			run.Violate("C16/cli/build-failed/variable-values-containing-equals-signs", map[string]any{"exit": code, "output": ev.Short(string(so)+string(se), 300)})
+		} else {
+			raw, _ := os.ReadFile(target)
+			p := dec.Decode("deb", raw, false)
+			for field, want := range map[string]string{"Maintainer": "M <m=m@example.com>", "Description": "a=b=c", "Homepage": "https://example.com/?q=1&r=2", "Depends": "libfoo (>= 1.2)"} {
+				if got, _ := p.MetaGet(field); got != want {
+					run.Violate("C16/cli/variable-value-not-substituted-whole", map[string]any{"field": field, "got": got, "want": want})
+				}
+			}
+		}
+		plain := strings.NewReplacer("${VERIF_C16_MAINT}", "\"M <m@example.com>\"", "${VERIF_C16_DESC}", "d", "${VERIF_C16_HOME}", "https://example.com", "${VERIF_C16_DEP}", "libfoo").Replace(y)
+		for _, probe := range []struct{ name, doc string }{
+			{"top-level", plain + "verif_unknown_key: 1\n"},
+			{"nested", strings.Replace(plain, "    dst: /opt/envvalues/p.txt\n", "    dst: /opt/envvalues/p.txt\n    verif_unknown_key: 1\n", 1)},
+		} {
+			run.Case("cli-document-from-standard-input|unknown-key-"+probe.name, true)
+			_ = os.Remove(target)
+			if _, _, code, err := runCmd([]byte(plain), cdir, env, bin, "package", "-f", "-", "-p", "deb", "-t", target); err != nil || code != 0 {
+				run.Violate("C16/cli/standard-input/well-formed-document-rejected", map[string]any{"exit": code})
+				break
+			}
+			_ = os.Remove(target)
+			so, se, code, err := runCmd([]byte(probe.doc), cdir, env, bin, "package", "-f", "-", "-p", "deb", "-t", target)
+			if err == nil && code == 0 {
+				run.Violate("C16/unknown-key-accepted/document-from-standard-input/"+probe.name, map[string]any{"output": ev.Short(string(so)+string(se), 200)})
+			}
+		}
+		removeWorkDir(cdir)
 	}
 	run.Set("documents_parsed", parses)
 	run.Assume("the must-expand set is the set of fields whose documentation in www/docs/configuration.md says 'This will expand any env var' (plus content src/dst with expand: true); fields the code also expands but the documentation does not mention (name, prerelease, predepends, ipk fields) are not given '$' values")
